@@ -797,15 +797,9 @@ func init() {
 						return
 					}
 					for _, o := range ops {
-						// Exclusive together with Optional is not specified
-						hasOpt, hasExcl := o == fbOptional, o == fbExclusive
-						for _, p := range seq {
-							hasOpt = hasOpt || p == fbOptional
-							hasExcl = hasExcl || p == fbExclusive
-						}
-						if hasOpt && hasExcl {
-							continue
-						}
+						// Exclusive together with Optional: the two calls compose as each is defined on its own - Optional takes
+						// the component out of the required set, Exclusive excludes everything outside the required set
+						// (the core filter All(required...).Exclusive())
 						rec(append(seq, o))
 					}
 				}
@@ -863,7 +857,7 @@ func init() {
 		sort.Strings(sigs)
 		return rp.Finish("model_checking", []string{
 			"generic types are instantiated with 12 distinct 8-byte component types (plus a relation type in position 0 in the second variant); every MapN method is compared with its documented ID-based equivalent on twin worlds from two seed worlds",
-			"filter builder: all call sequences up to the stated length over {With, Without, Optional, Exclusive, WithRelation(+-target), Register, Unregister, Query(+-target)}; Exclusive combined with Optional, and Query(target) without WithRelation, are not asserted (documentation unclear)",
+			"filter builder: all call sequences up to the stated length over {With, Without, Optional, Exclusive, WithRelation(+-target), Register, Unregister, Query(+-target)}; Exclusive combined with Optional is asserted as the composition of the two calls (exclusive relative to the required components); Query(target) without WithRelation is not asserted (documentation unclear)",
 		}, map[string]interface{}{"map_method_cases": mapCases, "filter_sequences": len(tasks), "queries_compared": queries, "max_sequence_length": maxLen, "arities_filter": arities,
 			"method": "exhaustive enumeration of call sequences of the filter builder (bounded length) and of all Map methods x arities, each executed on the real implementation and compared with the core API on a twin world"})
 	}
